@@ -6,8 +6,10 @@ package main
 
 import (
 	"context"
+	"encoding/hex"
 	"fmt"
 	"math"
+	"regexp"
 	"sort"
 	"strconv"
 	"strings"
@@ -22,9 +24,12 @@ import (
 	"go.opentelemetry.io/otel/attribute"
 	otelprom "go.opentelemetry.io/otel/exporters/prometheus"
 	"go.opentelemetry.io/otel/metric"
+	"go.opentelemetry.io/otel/sdk/instrumentation"
 	sdkmetric "go.opentelemetry.io/otel/sdk/metric"
 	"go.opentelemetry.io/otel/sdk/metric/metricdata"
 	"go.opentelemetry.io/otel/sdk/resource"
+	sdktrace "go.opentelemetry.io/otel/sdk/trace"
+	"go.opentelemetry.io/otel/trace"
 )
 
 // ---------------------------------------------------------------- abstract inputs (as in PromModel.tla)
@@ -62,6 +67,8 @@ type Attr struct {
 	T string `json:"t"` // s | i | b
 	V string `json:"v"`
 	R int    `json:"r"`
+	F bool   `json:"f"` // removed from the stream by the view's attribute filter (visible only in exemplars)
+	N int    `json:"n"` // runes of key + value text
 }
 
 func (a Attr) kv() attribute.KeyValue {
@@ -105,6 +112,7 @@ type ScopeRec struct {
 	Name    string `json:"name"`
 	Version string `json:"version"`
 	URL     string `json:"url"`
+	Attrs   []Attr `json:"attrs"`
 }
 
 // ---------------------------------------------------------------- observed exposition
@@ -117,6 +125,35 @@ type OIdx struct {
 	I int64 `json:"i"`
 	C int64 `json:"c"`
 }
+
+// OEx is one exposed exemplar.
+type OEx struct {
+	B      int        `json:"b"` // ordinal of the classic bucket that carries it (last = +Inf); 0 = not in a bucket
+	Val    string     `json:"val"`
+	Q      int64      `json:"q"` // 8 * value when that is an integer (qok)
+	QOK    bool       `json:"qok"`
+	Labels [][]string `json:"labels"`
+}
+
+// q8: bucket placement is decided on integers in the model.
+func q8(v float64) (int64, bool) {
+	x := v * 8
+	if x == math.Trunc(x) && math.Abs(x) < 1e9 {
+		return int64(x), true
+	}
+	return 0, false
+}
+
+func projectExemplar(e *dto.Exemplar, b int) OEx {
+	o := OEx{B: b, Val: fmtF(e.GetValue()), Labels: [][]string{}}
+	o.Q, o.QOK = q8(e.GetValue())
+	for _, lp := range e.Label {
+		o.Labels = append(o.Labels, []string{lp.GetName(), lp.GetValue()})
+	}
+	sort.Slice(o.Labels, func(a, b int) bool { return o.Labels[a][0] < o.Labels[b][0] })
+	return o
+}
+
 type OSeries struct {
 	Labels  [][]string `json:"labels"` // [[name, value]...] sorted by name
 	Val     string     `json:"val"`    // counter / gauge value ("" for histograms)
@@ -128,6 +165,7 @@ type OSeries struct {
 	Zero    int64      `json:"zero"`
 	Pos     []OIdx     `json:"pos"` // native: absolute bucket index -> count (non-zero only)
 	Neg     []OIdx     `json:"neg"`
+	Exs     []OEx      `json:"exs"`
 }
 type OFamily struct {
 	Name   string    `json:"name"`
@@ -138,6 +176,7 @@ type OFamily struct {
 type Obs struct {
 	Panic     string    `json:"panic"`
 	GatherErr string    `json:"gerr"`
+	GFams     []string  `json:"gfams"`   // metric names the registry's errors talk about
 	Invalid   []string  `json:"invalid"` // names/labels failing the model validity predicates
 	Fams      []OFamily `json:"fams"`
 }
@@ -196,7 +235,7 @@ func projectFamilies(mfs []*dto.MetricFamily) ([]OFamily, []string) {
 			invalid = append(invalid, "metric-legacy:"+f.Name)
 		}
 		for _, m := range mf.Metric {
-			s := OSeries{Labels: [][]string{}, Buckets: []OBucket{}, Pos: []OIdx{}, Neg: []OIdx{}}
+			s := OSeries{Labels: [][]string{}, Buckets: []OBucket{}, Pos: []OIdx{}, Neg: []OIdx{}, Exs: []OEx{}}
 			seen := map[string]bool{}
 			for _, lp := range m.Label {
 				s.Labels = append(s.Labels, []string{lp.GetName(), lp.GetValue()})
@@ -213,6 +252,9 @@ func projectFamilies(mfs []*dto.MetricFamily) ([]OFamily, []string) {
 			switch {
 			case m.Counter != nil:
 				s.Val = fmtF(m.Counter.GetValue())
+				if m.Counter.Exemplar != nil {
+					s.Exs = append(s.Exs, projectExemplar(m.Counter.Exemplar, 0))
+				}
 			case m.Gauge != nil:
 				s.Val = fmtF(m.Gauge.GetValue())
 			case m.Untyped != nil:
@@ -222,10 +264,22 @@ func projectFamilies(mfs []*dto.MetricFamily) ([]OFamily, []string) {
 				s.Count = int64(h.GetSampleCount())
 				s.Sum = fmtF(h.GetSampleSum())
 				for _, b := range h.Bucket {
+					if b.Exemplar != nil {
+						ord := len(histBounds) + 1 // +Inf
+						for i, bound := range histBounds {
+							if b.GetUpperBound() == bound {
+								ord = i + 1
+							}
+						}
+						s.Exs = append(s.Exs, projectExemplar(b.Exemplar, ord))
+					}
 					if math.IsInf(b.GetUpperBound(), 1) {
 						continue
 					}
 					s.Buckets = append(s.Buckets, OBucket{Le: fmtF(b.GetUpperBound()), C: int64(b.GetCumulativeCount())})
+				}
+				for _, e := range h.Exemplars {
+					s.Exs = append(s.Exs, projectExemplar(e, 0))
 				}
 				if h.Schema != nil {
 					s.Native = true
@@ -319,7 +373,13 @@ type world struct {
 	scopes    map[string]metric.Meter
 	maxScale  int // MaxScale of exponential histogram views
 	scopeRecs []ScopeRec
+	filtered  []attribute.Key // keys removed by the view's attribute filter
+	mark      bool            // measurements carry the vinst marker
+	byName    map[string]int  // scope id + lower-case OTel name -> instrument id (used when !mark)
 }
+
+// one tracer provider for the process: measurements "inside a sampled span" get exemplars
+var tracer = sdktrace.NewTracerProvider(sdktrace.WithSampler(sdktrace.AlwaysSample())).Tracer("c18")
 
 func (w *world) scopeRec(id string) ScopeRec {
 	for _, r := range w.scopeRecs {
@@ -327,17 +387,18 @@ func (w *world) scopeRec(id string) ScopeRec {
 			return r
 		}
 	}
-	return ScopeRec{ID: id, Name: id, Version: "v" + id}
+	return ScopeRec{ID: id, Name: id, Version: "v" + id, Attrs: []Attr{}}
 }
 
 // scopeID maps what the SDK reports back to the scenario's scope id.
-func (w *world) scopeID(name, version, url string) string {
+func (w *world) scopeID(sc instrumentation.Scope) string {
 	for _, r := range w.scopeRecs {
-		if r.Name == name && r.Version == version && r.URL == url {
+		want := attribute.NewSet(kvs(r.Attrs)...)
+		if r.Name == sc.Name && r.Version == sc.Version && r.URL == sc.SchemaURL && want.Equals(&sc.Attributes) {
 			return r.ID
 		}
 	}
-	return name
+	return sc.Name
 }
 
 type rinst struct {
@@ -377,7 +438,8 @@ func newWorld(o Opts, res []Attr) (*world, error) {
 	if o.Scheme != *scheme {
 		return nil, fmt.Errorf("scenario scheme %q but process runs %q", o.Scheme, *scheme)
 	}
-	w := &world{opts: o, res: res, insts: map[int]*rinst{}, expo: map[string]bool{}, scopes: map[string]metric.Meter{}, maxScale: *expoMaxScale}
+	w := &world{opts: o, res: res, insts: map[int]*rinst{}, expo: map[string]bool{}, scopes: map[string]metric.Meter{}, maxScale: *expoMaxScale,
+		mark: true, byName: map[string]int{}}
 	curMu.Lock()
 	curWorld = w
 	curMu.Unlock()
@@ -413,11 +475,17 @@ func newWorld(o Opts, res []Attr) (*world, error) {
 	view := func(i sdkmetric.Instrument) (sdkmetric.Stream, bool) {
 		w.mu.Lock()
 		defer w.mu.Unlock()
-		if w.expo[w.scopeID(i.Scope.Name, i.Scope.Version, i.Scope.SchemaURL)+"\x00"+i.Name] {
-			return sdkmetric.Stream{Name: i.Name, Description: i.Description, Unit: i.Unit,
-				Aggregation: sdkmetric.AggregationBase2ExponentialHistogram{MaxSize: 160, MaxScale: int32(w.maxScale)}}, true
+		st := sdkmetric.Stream{Name: i.Name, Description: i.Description, Unit: i.Unit}
+		use := false
+		if len(w.filtered) > 0 {
+			st.AttributeFilter = attribute.NewDenyKeysFilter(w.filtered...)
+			use = true
 		}
-		return sdkmetric.Stream{}, false
+		if w.expo[w.scopeID(i.Scope)+"\x00"+i.Name] {
+			st.Aggregation = sdkmetric.AggregationBase2ExponentialHistogram{MaxSize: 160, MaxScale: int32(w.maxScale)}
+			use = true
+		}
+		return st, use
 	}
 	w.mp = sdkmetric.NewMeterProvider(sdkmetric.WithReader(exp), sdkmetric.WithView(view),
 		sdkmetric.WithResource(resource.NewSchemaless(kvs(res)...)))
@@ -442,6 +510,9 @@ func (w *world) meter(scope string) metric.Meter {
 	if r.URL != "" {
 		mopts = append(mopts, metric.WithSchemaURL(r.URL))
 	}
+	if len(r.Attrs) > 0 {
+		mopts = append(mopts, metric.WithInstrumentationAttributes(kvs(r.Attrs)...))
+	}
 	m := w.mp.Meter(r.Name, mopts...)
 	w.scopes[scope] = m
 	return m
@@ -454,6 +525,7 @@ func (w *world) create(in Inst) error {
 		return nil
 	}
 	name := render(in.Toks)
+	w.byName[in.Scope+"\x00"+strings.ToLower(name)] = in.ID
 	m := w.meter(in.Scope)
 	ri := &rinst{in: in}
 	k := in.Kind
@@ -605,18 +677,55 @@ func recordOn(ri *rinst, id int, asIdx int, as []Attr, v float64) {
 	ri.add(context.Background(), v, a)
 }
 
-// record adds one measurement with the abstract attribute set (index asIdx, 1-based) plus the markers.
-func (w *world) record(id int, asIdx int, as []Attr, v float64) {
+// recordIn adds one measurement; sp = inside a real sampled span (the SDK's default trace-based exemplar
+// filter then offers it to the exemplar reservoir).
+func (w *world) recordIn(id int, asIdx int, as []Attr, v float64, sp bool) {
 	ri := w.insts[id]
-	a := append(kvs(as), attribute.String(marker, "i"+strconv.Itoa(id)), attribute.String(markerAS, "a"+strconv.Itoa(asIdx)))
-	ri.add(context.Background(), v, a)
+	a := append(kvs(as), attribute.String(markerAS, "a"+strconv.Itoa(asIdx)))
+	if w.mark {
+		a = append(a, attribute.String(marker, "i"+strconv.Itoa(id)))
+	}
+	ctx := context.Background()
+	if sp {
+		var span trace.Span
+		ctx, span = tracer.Start(ctx, "rec")
+		defer span.End()
+	}
+	ri.add(ctx, v, a)
+}
+
+// record adds one measurement with the abstract attribute set (index asIdx, 1-based) plus the markers.
+func (w *world) record(id int, asIdx int, as []Attr, v float64) { w.recordIn(id, asIdx, as, v, false) }
+
+var collectedMetricRe = regexp.MustCompile(`collected metric "?([^\s"{]+)`)
+
+// rejectedFamilies: the metric names named by the registry's errors (sorted, unique).
+func rejectedFamilies(err error) []string {
+	errs := []error{err}
+	if me, ok := err.(prometheus.MultiError); ok {
+		errs = me
+	}
+	seen := map[string]bool{}
+	out := []string{}
+	for _, e := range errs {
+		name := "?"
+		if m := collectedMetricRe.FindStringSubmatch(e.Error()); m != nil {
+			name = m[1]
+		}
+		if !seen[name] {
+			seen[name] = true
+			out = append(out, name)
+		}
+	}
+	sort.Strings(out)
+	return out
 }
 
 // collectObs = one scrape by calling Collect on the captured collector directly, under recover
 // (a panic inside registry.Gather's goroutine could not be recovered). What was collected is then
 // checked by a real, fresh Registry (replayed through it): Gather error, validity of names.
 func (w *world) collectObs() Obs {
-	o := Obs{Invalid: []string{}, Fams: []OFamily{}}
+	o := Obs{Invalid: []string{}, Fams: []OFamily{}, GFams: []string{}}
 	if len(w.reg.cs) != 1 {
 		o.Panic = fmt.Sprintf("harness: %d collectors captured", len(w.reg.cs))
 		return o
@@ -626,6 +735,13 @@ func (w *world) collectObs() Obs {
 		o.Panic = p
 		return o
 	}
+	for _, m := range ms {
+		if m == nil {
+			// what the production path does with it: Registry.Gather calls m.Desc() -> nil dereference in its goroutine
+			o.Panic = "collector sent a nil prometheus.Metric (Registry.Gather dereferences it: nil pointer panic)"
+			return o
+		}
+	}
 	r2 := prometheus.NewRegistry()
 	if err := r2.Register(replayCollector{ms}); err != nil {
 		o.Panic = "harness: " + err.Error()
@@ -634,6 +750,7 @@ func (w *world) collectObs() Obs {
 	mfs, err := r2.Gather()
 	if err != nil {
 		o.GatherErr = err.Error()
+		o.GFams = rejectedFamilies(err)
 	}
 	o.Fams, o.Invalid = projectFamilies(mfs)
 	return o
@@ -642,10 +759,11 @@ func (w *world) collectObs() Obs {
 // gatherObs = one scrape through the registry the exporter registered with (the production path).
 // Only called after collectObs proved that the same state does not panic.
 func (w *world) gatherObs() Obs {
-	o := Obs{Invalid: []string{}, Fams: []OFamily{}}
+	o := Obs{Invalid: []string{}, Fams: []OFamily{}, GFams: []string{}}
 	mfs, err := w.reg.inner.Gather()
 	if err != nil {
 		o.GatherErr = err.Error()
+		o.GFams = rejectedFamilies(err)
 	}
 	o.Fams, o.Invalid = projectFamilies(mfs)
 	return o
@@ -666,7 +784,28 @@ type SPoint struct {
 	PCnt   []int64 `json:"pcnt"`
 	NOff   int64   `json:"noff"`
 	NCnt   []int64 `json:"ncnt"`
+	Exs    []SEx   `json:"exs"`
 }
+
+// SEx is one exemplar of the SDK's view.
+type SEx struct {
+	Val   string `json:"val"`
+	Q     int64  `json:"q"`
+	QOK   bool   `json:"qok"`
+	Trace string `json:"trace"`
+	Span  string `json:"span"`
+}
+
+func sexs[N int64 | float64](in []metricdata.Exemplar[N]) []SEx {
+	out := []SEx{}
+	for _, e := range in {
+		x := SEx{Val: fmtF(float64(e.Value)), Trace: hex.EncodeToString(e.TraceID), Span: hex.EncodeToString(e.SpanID)}
+		x.Q, x.QOK = q8(float64(e.Value))
+		out = append(out, x)
+	}
+	return out
+}
+
 type SStream struct {
 	Inst   int      `json:"inst"`
 	Scope  string   `json:"scope"`
@@ -697,7 +836,7 @@ func sumPoints[N int64 | float64](dps []metricdata.DataPoint[N]) (pts []SPoint, 
 	for _, dp := range dps {
 		a, i := attrsOf(dp.Attributes)
 		id = i
-		pts = append(pts, SPoint{AS: a, Val: fmtF(float64(dp.Value)), Counts: []int64{}, PCnt: []int64{}, NCnt: []int64{}})
+		pts = append(pts, SPoint{AS: a, Val: fmtF(float64(dp.Value)), Counts: []int64{}, PCnt: []int64{}, NCnt: []int64{}, Exs: sexs(dp.Exemplars)})
 	}
 	return
 }
@@ -708,7 +847,7 @@ func histPoints[N int64 | float64](dps []metricdata.HistogramDataPoint[N]) (pts 
 		a, i := attrsOf(dp.Attributes)
 		id = i
 		pts = append(pts, SPoint{AS: a, Count: int64(dp.Count), Sum: fmtF(float64(dp.Sum)), Counts: i64s(dp.BucketCounts),
-			PCnt: []int64{}, NCnt: []int64{}})
+			PCnt: []int64{}, NCnt: []int64{}, Exs: sexs(dp.Exemplars)})
 	}
 	return
 }
@@ -720,7 +859,7 @@ func expPoints[N int64 | float64](dps []metricdata.ExponentialHistogramDataPoint
 		id = i
 		pts = append(pts, SPoint{AS: a, Count: int64(dp.Count), Sum: fmtF(float64(dp.Sum)), Counts: []int64{},
 			Scale: int64(dp.Scale), Zero: int64(dp.ZeroCount), POff: int64(dp.PositiveBucket.Offset), PCnt: i64s(dp.PositiveBucket.Counts),
-			NOff: int64(dp.NegativeBucket.Offset), NCnt: i64s(dp.NegativeBucket.Counts)})
+			NOff: int64(dp.NegativeBucket.Offset), NCnt: i64s(dp.NegativeBucket.Counts), Exs: sexs(dp.Exemplars)})
 	}
 	return
 }
@@ -733,10 +872,7 @@ func (w *world) sdkView() ([]SStream, error) {
 		return nil, err
 	}
 	out := []SStream{}
-	sid := func(i int) string {
-		sc := rm.ScopeMetrics[i].Scope
-		return w.scopeID(sc.Name, sc.Version, sc.SchemaURL)
-	}
+	sid := func(i int) string { return w.scopeID(rm.ScopeMetrics[i].Scope) }
 	sort.Slice(rm.ScopeMetrics, func(a, b int) bool { return sid(a) < sid(b) })
 	for i, sm := range rm.ScopeMetrics {
 		for _, m := range sm.Metrics {
@@ -768,11 +904,19 @@ func (w *world) sdkView() ([]SStream, error) {
 				s.Data = "exphist"
 				s.Points, id = expPoints(d.DataPoints)
 			}
-			n, err := strconv.Atoi(strings.TrimPrefix(id, "i"))
-			if err != nil {
-				return nil, fmt.Errorf("stream %q without marker", m.Name)
+			if w.mark {
+				n, err := strconv.Atoi(strings.TrimPrefix(id, "i"))
+				if err != nil {
+					return nil, fmt.Errorf("stream %q without marker", m.Name)
+				}
+				s.Inst = n
+			} else {
+				n, ok := w.byName[s.Scope+"\x00"+strings.ToLower(m.Name)]
+				if !ok {
+					return nil, fmt.Errorf("stream %q of scope %q not created by the scenario", m.Name, s.Scope)
+				}
+				s.Inst = n
 			}
-			s.Inst = n
 			out = append(out, s)
 		}
 	}
